@@ -26,11 +26,17 @@ RULE = ("server side: a hostile raw peer sends grammar-aware mutations of valid 
         "get_current_directory, list, recursive list, stat, download) against a scripted hostile server that mutates one reply "
         "or the listing lines and then closes: the call returns well-typed values or raises an ordinary exception within the "
         "virtual-time budget; '.' and '..' are never yielded; a listing that returns normally yields one entry per non-dot "
-        "line sent.  distinct = distinct mutated inputs; non-trivial = the input differs from every valid seed line.")
+        "line sent: every line that went over the wire is given to the client's own line parser, a rejected line (mutated lines, "
+        "'total 12', tool error messages) must surface as an exception of list(), a normal return has exactly one entry per parsed "
+        "non-dot line; a conformant scripted server with a 4-directory tree that lists the directory itself and its parent as "
+        "'.'/'..' or by full path (RFC 3659 7.7.4): list/recursive list return exactly the tree with one listing command per "
+        "directory.  After the hostile session a fresh session must be able to MLSD and LIST the root (what the hostile session "
+        "left in the tree breaks nobody).  distinct = distinct mutated inputs; non-trivial = the input differs from every valid seed line.")
 ASSUMPTIONS = ["the hostile peer's script is finite and ends with EOF (a peer that stays silent for ever is C16's subject)",
                "time budget per parser call 5 s (a 64 KiB PASV payload needs ~2 s because of a quadratic regular expression; "
                "bounded by the stream limit, so not a hang)"]
-REQUIRED_MONITORS = ["hostile_lines", "bystander_vs_solo", "parser_calls", "client_calls"]
+REQUIRED_MONITORS = ["hostile_lines", "bystander_vs_solo", "parser_calls", "client_calls", "listing_after_hostile",
+                     "listing_lines_accounted", "tree_listings"]
 ANCHOR_FUNCTIONS = ['server.py:Server.parse_command', 'client.py:BaseClient.parse_list_line', 'client.py:Client.list.<locals>.AsyncLister.__anext__']
 EXHAUSTIVE = {"quick": False, "thorough": False}
 
@@ -43,6 +49,9 @@ UNIX = [b"-rw-rw-r--  1 poh  poh   6595 Feb 27 04:14 history.rst", b"drwxr-xr-x 
 WIN = [b"10/19/2018  03:57 PM    <DIR>          Foo", b"07/17/2019  03:53 PM             1,024 bar.txt", b"01/01/1980  12:00 AM  0 a"]
 MLSX = [b"Type=file;Size=25730;Modify=20220101000000; foo.txt", b"type=dir;modify=20010101120000;create=19990101000000; some dir",
         b"Size=0;Type=file; ", b"Type=cdir;Modify=20230101000000; ."]
+NOT_ENTRIES = [b"total 12", b"total 2 -rw------- 1 root root 4096 Jan 01  2020 shadow", b"total 0x10", b"total 1337 bytes of garbage",
+               b"-rw-r--r--", b"ls: cannot access 'x': No such file or directory", b"226 Transfer complete", b"Type=file", b"# comment",
+               b"drwxr-xr-x", b"<html>", b"0 files", b"Volume in drive C has no label."]
 REPLIES = ["227 listen socket created (127,0,0,1,156,64)", "229 listen socket created (|||40000|)", '257 "/some/dir" is current',
            "227 Entering Passive Mode (10,0,0,1,4,1).", "229 Extended Passive Mode OK (|||1|)"]
 MUT_BYTES = [b"\0", b"\xff", b"\xff\xf4\xff\xf2", b"\x80", b"\xc3", b"\xe2\x82", b"\r", b"\n", b"\r\n", b" ", b"  ", b"\t", b"-", b"=", b";", b":", b"0",
@@ -99,7 +108,13 @@ async def server_side(net, hyg, plan):
                     await p.cmd("USER anonymous")
                 for i in range(plan["lines"]):
                     r = rng.random()
-                    if r < 0.06:
+                    if r < 0.03:
+                        # undecodable bytes inside the path argument of a creating command
+                        line = rng.choice([b"MKD /", b"STOR /", b"APPE /", b"RNTO /", b"MKD /dir/"]) + rng.choice(
+                            [b"bad\xff\xfe", b"\x80", b"caf\xe9", b"\xc3", b"a\xed\xa0\x80b", b"\xf8\x88\x80\x80\x80"])
+                        if line.startswith(b"RNTO"):
+                            p.writer.write(b"RNFR /dir/g.txt\r\n")
+                    elif r < 0.06:
                         line = rng.choice(VALID_CMDS).split(b" ")[0] + b" " + b"A" * rng.choice([70000, 140000])
                     elif r < 0.1:
                         line = b"\r\n".join([b"NOOP"] * 400)
@@ -134,6 +149,14 @@ async def server_side(net, hyg, plan):
         await s.run([["connect"], ["login"], ["cmd", "PWD"], ["quit"]])
         if s.flat_codes()[:4] != ["220", "230", "257", "221"]:
             viol.append({"key": "server-unusable-after-hostile-input", "msg": f"new session got {s.flat_codes()} after hostile lines {sent[:5]}"})
+        # ... and whatever the hostile session left in the tree does not break a later session that lists it
+        s2 = Session(net, 2121, name="after-listing")
+        await s2.run([["connect"], ["login"], ["epsv"], ["xfer", "MLSD", "/"], ["pasv"], ["xfer", "LIST", "/"], ["cmd", "PWD"], ["quit"]])
+        mon["listing_after_hostile"] = 1
+        want = ["220", "230", "229", "150", "200", "eof", "227", "150", "226", "eof", "257", "221"]
+        if s2.flat_codes()[:len(want)] != want:
+            viol.append({"key": "listing-broken-after-hostile-input",
+                         "msg": f"a later session listing / got {s2.flat_codes()} after hostile lines {sent[:5]}"})
         await net.quiesce(1.0)
         for leak in w.leaks():
             viol.append({"key": "hostile-session-not-released", "msg": f"{leak}; hostile lines {sent[:5]}"})
@@ -290,7 +313,12 @@ class HostileServer:
                     break
                 served += 1
                 verb = line.split(b" ")[0].strip().upper().decode("latin-1")
+                arg = line.partition(b" ")[2].strip().decode("latin-1")
                 self.cmds.append(verb)
+                if verb == "MLSD" and plan.get("no_mlsd"):
+                    writer.write(b"502 no\r\n")
+                    await writer.drain()
+                    continue
                 if verb in ("MLSD", "LIST", "RETR"):
                     writer.write(b"150 here it comes\r\n")
                     for _ in range(200):
@@ -302,7 +330,7 @@ class HostileServer:
                         if verb == "RETR":
                             dw.write(b"payload")
                         else:
-                            lines = self.make_listing(verb)
+                            lines = self.make_listing(verb, arg)
                             self.listing_sent.append(lines)
                             for ln in lines:
                                 dw.write(ln + b"\r\n")
@@ -318,8 +346,32 @@ class HostileServer:
         finally:
             writer.close()
 
-    def make_listing(self, verb):
+    TREE = {"/d": [("sub1", "dir"), ("sub2", "dir"), ("f", "file")], "/d/sub1": [("deep", "dir"), ("g", "file")],
+            "/d/sub1/deep": [], "/d/sub2": [("h", "file")]}
+
+    def make_listing(self, verb, arg=""):
         rng = self.rng
+        if self.plan["target"] == "tree":
+            # a conformant server with a small fixed tree; the directory itself and its parent are listed the way RFC 3659
+            # (7.7.4) allows: as '.'/'..' or spelled with their full paths
+            kids = self.TREE.get(arg.rstrip("/") or "/", [])
+            out = []
+            for name, typ in kids:
+                if verb == "MLSD":
+                    out.append(f"type={typ};modify=20200101000000;{'size=3;' if typ == 'file' else ''} {name}".encode())
+                else:
+                    out.append(f"{'d' if typ == 'dir' else '-'}rw-r--r-- 1 a a 3 Jan 01  2020 {name}".encode())
+            style = self.plan.get("dots", "none")
+            if style != "none":
+                parent = str(pathlib.PurePosixPath(arg).parent)
+                if verb == "MLSD":
+                    cur, par = (".", "..") if style == "dot" else (arg, parent)
+                    out.insert(0, f"type=cdir;modify=20200101000000; {cur}".encode())
+                    out.insert(rng.randrange(len(out) + 1), f"type=pdir;modify=20200101000000; {par}".encode())
+                else:
+                    out.insert(0, b"drwxr-xr-x 2 a a 0 Jan 01  2020 .")
+                    out.insert(1, b"drwxr-xr-x 2 a a 0 Jan 01  2020 ..")
+            return out
         pool = MLSX if verb == "MLSD" else UNIX + WIN
         out = []
         for _ in range(rng.randint(0, 6)):
@@ -327,6 +379,9 @@ class HostileServer:
             if self.plan["target"] == "listing" and rng.random() < 0.5:
                 ln = mutate(rng, ln).replace(b"\n", b"?").replace(b"\r", b"?")
             out.append(ln)
+        if (self.plan["target"] == "listing" and rng.random() < 0.25) or self.plan["target"] == "not_entry":
+            # lines of other tools that real servers pass through; none of them is an entry
+            out.insert(rng.randrange(len(out) + 1), rng.choice(NOT_ENTRIES))
         if rng.random() < 0.5:
             out.insert(rng.randrange(len(out) + 1), b"Type=cdir; ." if verb == "MLSD" else b"drwxr-xr-x 2 a a 0 Jan 01 00:00 .")
             out.insert(rng.randrange(len(out) + 1), b"Type=pdir; .." if verb == "MLSD" else b"drwxr-xr-x 2 a a 0 Jan 01 00:00 ..")
@@ -402,6 +457,7 @@ async def client_side(net, hyg, plan):
                         viol.append({"key": "ill-typed:pwd", "msg": repr(r)})
                 elif op in ("list", "list_recursive", "list_raw"):
                     before = len(hs.listing_sent)
+                    cmds_before = len(hs.cmds)
                     kw = {"recursive": True} if op == "list_recursive" else ({"raw_command": "LIST"} if op == "list_raw" else {})
                     st, r = await call(op, c.list("/d", **kw))
                     if st == "ok":
@@ -409,10 +465,20 @@ async def client_side(net, hyg, plan):
                         if not ok:
                             viol.append({"key": f"ill-typed:{op}", "msg": repr(r)[:300]})
                         else:
-                            names = [x[0].name for x in r]
-                            if any(str(x[0].relative_to("/d")) in (".", "..") if str(x[0]).startswith("/d") else False for x in r) or "." in names or ".." in names:
+                            full = plan["target"] == "tree" and plan.get("dots") == "full"
+                            # (a directory that names itself by its full path with type cdir/pdir is reported as such: no dot entry)
+                            rr = [x for x in r if not (full and x[1].get("type") in ("cdir", "pdir"))]
+                            names = [x[0].name for x in rr]
+                            if any(str(x[0].relative_to("/d")) in (".", "..") if str(x[0]).startswith("/d") else False for x in rr) or "." in names or ".." in names:
                                 viol.append({"key": f"dot-entry-yielded:{op}", "msg": repr(r)[:300]})
                             sent = [ln for lst in hs.listing_sent[before:] for ln in lst]
+                            if plan["target"] == "tree":
+                                want = {"/d/sub1", "/d/sub1/deep", "/d/sub1/g", "/d/sub2", "/d/sub2/h", "/d/f"} if op == "list_recursive" \
+                                    else {"/d/sub1", "/d/sub2", "/d/f"}
+                                got_paths = sorted(str(x[0]) for x in r if x[1].get("type") not in ("cdir", "pdir"))
+                                if got_paths != sorted(want):
+                                    viol.append({"key": f"wrong-listing-of-conformant-server:{op}",
+                                                 "msg": f"plan {plan}: entries {got_paths}, the tree holds {sorted(want)}"})
                             if plan["target"] != "listing" and op != "list_recursive" and len(hs.listing_sent) - before == 1:
                                 # unmutated seed lines: the number of entries is known exactly
                                 def seed_name(ln):
@@ -426,6 +492,40 @@ async def client_side(net, hyg, plan):
                                     viol.append({"key": f"line-dropped-silently:{op}",
                                                  "msg": f"server sent {len(expect)} valid non-dot lines {expect[:4]}, client returned {len(r)} "
                                                         f"entries {r[:3]!r}"})
+                    if st != "hang" and op != "list_recursive" and len(hs.listing_sent) - before == 1 and plan["target"] != "tree":
+                        # reference: the client's own line parser applied to every line that went over the wire.  A line it
+                        # rejects must surface as an exception of list(); a normal return yields one entry per non-dot line
+                        mon["listing_lines_accounted"] = mon.get("listing_lines_accounted", 0) + 1
+                        used_list = "LIST" in hs.cmds[-3:]
+                        ref = c.parse_list_line if used_list else c.parse_mlsx_line
+                        bad, good = [], 0
+                        for ln in hs.listing_sent[before]:
+                            try:
+                                nm, _info = ref(ln + b"\r\n")
+                                if str(nm) not in (".", ".."):
+                                    good += 1
+                            except Exception:
+                                bad.append(ln)
+                        if st == "ok" and bad:
+                            viol.append({"key": f"unparsable-line-dropped:{op}",
+                                         "msg": f"plan {plan}: the listing held line(s) {bad[:3]} which the line parser rejects, but list() "
+                                                f"returned {len(r)} entries without any error"})
+                        elif st == "ok" and isinstance(r, list) and len(r) != good:
+                            viol.append({"key": f"line-dropped-silently:{op}",
+                                         "msg": f"plan {plan}: {good} parseable non-dot lines sent {hs.listing_sent[before][:4]}, list() "
+                                                f"returned {len(r)} entries"})
+                    if plan["target"] == "tree":
+                        ndirs = 4 if op == "list_recursive" else 1
+                        nlist = sum(1 for v in hs.cmds[cmds_before:] if v in ("LIST", "MLSD"))
+                        mon["tree_listings"] = mon.get("tree_listings", 0) + 1
+                        if st != "ok":
+                            if st != "hang":
+                                viol.append({"key": f"conformant-listing-fails:{op}",
+                                             "msg": f"plan {plan}: {op} of a conformant server raised {r!r} after {nlist} listing commands "
+                                                    f"(the tree has {ndirs} directories)"})
+                        elif nlist > ndirs * (2 if plan.get("no_mlsd") else 1):
+                            viol.append({"key": f"directory-listed-twice:{op}",
+                                         "msg": f"plan {plan}: {nlist} listing commands for {ndirs} directories: {hs.cmds[cmds_before:]}"})
                 elif op == "stat":
                     st, r = await call("stat", c.stat("/d/f"))
                     if st == "ok" and not isinstance(r, dict):
@@ -501,5 +601,14 @@ def gen_cases(tier, seed):
         plans.append({"seed": seed * 31 + i, "target": rng.choice(targets), "budget": rng.choice([3, 6, 12, 40]),
                       "passive": rng.choice(["epsv", "pasv"]),
                       "ops": [rng.choice(["pwd", "list", "list_recursive", "list_raw", "stat", "download"]) for _ in range(rng.randint(1, 4))]})
+    for i in range(60 if tier == "quick" else 1500):
+        # valid lines plus one line that is not an entry (summary lines, error messages of the tool behind the server)
+        plans.append({"seed": seed * 77 + i, "target": "not_entry", "budget": 12, "passive": rng.choice(["epsv", "pasv"]),
+                      "no_mlsd": i % 3 == 1, "ops": [["list_raw"], ["list"], ["list_raw", "list"]][i % 3]})
+    for dots in ("none", "dot", "full"):
+        for no_mlsd in (False, True):
+            for passive in ("epsv", "pasv"):
+                for ops in (["list_recursive"], ["list", "list_recursive", "list_raw"], ["list_raw", "list_recursive"]):
+                    plans.append({"seed": seed, "target": "tree", "dots": dots, "no_mlsd": no_mlsd, "budget": 120, "passive": passive, "ops": ops})
     cases += [{"kind": "client", "plans": plans[i:i + 25]} for i in range(0, len(plans), 25)]
     return cases
